@@ -104,6 +104,15 @@ def _chunk_worker(args):
             out['harness'] = 'HARNESS-TIMEOUT index=%s plan=%s' % (i, P.short(pl))
             out['harness_plan'] = pl
             break
+        except ValueError as e:
+            if 'integer string conversion' not in str(e):
+                out['harness'] = 'HARNESS-ERROR index=%s\n%s' % (i, traceback.format_exc())
+                out['harness_plan'] = pl
+                break
+            # CPython refused to print a very long int somewhere in harness formatting: the run is dropped and
+            # counted, it is neither a verdict nor a reason to abort the batch
+            res = {'status': 'skip', 'reason': 'harness-unprintable-int', 'counters': {}, 'nontrivial': False,
+                   'digest': '', 'sites': [], 'events': 0}
         except Exception:
             out['harness'] = 'HARNESS-ERROR index=%s\n%s' % (i, traceback.format_exc())
             out['harness_plan'] = pl
